@@ -1,6 +1,7 @@
 import DSV.Lemmas.Outcome
 import DSV.Lemmas.Tally
 import DSV.Lemmas.History
+import DSV.Props.C14Observe
 /-!
 # C05 — lifecycle is monotone; retirement freezes state; specimen marking is exact
 -/
@@ -144,5 +145,12 @@ theorem specimen_exact (cfg : Cfg) (σ : Sched) (encodes : Report → Nat → Bo
         split at hcid
         · cases hcid; exact ⟨rfl, rfl, rfl⟩
         · cases hcid
+
+/-- **a retired instance observes nothing**: its observation carries the clock reading and no
+    vote, attestation or stream value -/
+theorem retired_observes_nothing (env : Env) (cfg : Cfg) (seqNr : Nat) (prev : Outcome) (nd : Node) (o : Obs)
+    (h : observation env cfg seqNr prev nd = .ok (some o)) (hr : prev.stage = stageRetired) :
+    o = emptyObs o.ts :=
+  (C14.honest_observation_shape env cfg seqNr prev nd o h).2.2.1 hr
 
 end DSV.Props.C05
